@@ -93,6 +93,51 @@ def run(ctx, crate):
                             ctx.check(not problems, "R-ERR-EXIT-PURE", "match-err-arm", b.name, "%s:%d" % (b.file, t.get("line", 0)),
                                       "the Err arm of an explicit match on io::Result writes no state",
                                       "Err arm of a match on io::Result is not pure: " + "; ".join(problems[:3]), cfg)
+        # (4) the same for `if result.is_err() {..}` / `if !result.is_ok() {..}`: what runs only after a failed terminal operation
+        #     writes no state (a draw target swapped for a hidden one "because the terminal is gone" silences the bar for good
+        #     after one transient error)
+        for sb, t in b.switches():
+            l = operand_local(t["op"])
+            neg = False
+            src = None
+            for _ in range(4):
+                ds = [d for d in b.defs().get(l, ()) if d["kind"] in ("assign", "call")] if l is not None else []
+                if len(ds) != 1:
+                    break
+                d = ds[0]
+                if d["kind"] == "call":
+                    if d["call"].matches(r"std::result::Result::<T, E>::is_(err|ok)") and io_err_targs(d["call"]):
+                        src = d["call"]
+                    break
+                if d["rv"]["k"] == "un" and d["rv"].get("op") == "Not":
+                    neg = not neg
+                    l = operand_local(d["rv"].get("a"))
+                elif d["rv"]["k"] == "use":
+                    l = operand_local(d["rv"]["op"])
+                else:
+                    break
+            if src is None or b.file in K.TEST_DOUBLE_FILES:
+                continue
+            zero = [tb for v, tb in t["targets"] if v == 0]
+            if not zero or zero[0] == t["otherwise"]:
+                continue
+            is_err = K.meth(src.path) == "is_err"
+            err_edge = (sb, t["otherwise"]) if (is_err != neg) else (sb, zero[0])
+            reg = b.edge_region(err_edge)
+            problems = []
+            for bb in sorted(reg):
+                for s_ in b.stmts(bb):
+                    if s_["k"] == "assign" and s_["lhs"]["l"] != 0 and any(x == "*" for x in s_["lhs"]["p"]):
+                        problems.append("store through a reference: %s (L%d)" % (place_str(s_["lhs"], b), s_.get("line", 0)))
+                    if s_["k"] == "assign" and any(isinstance(x, dict) and x.get("adt") in STATE_ADTS for x in s_["lhs"]["p"]):
+                        problems.append("store to state field: %s" % place_str(s_["lhs"], b))
+                pbk = K.block_panics(b, bb)
+                if pbk:
+                    problems.append("panic edge at bb%d" % bb)
+            N_MATCH_EXITS[0] += 1
+            ctx.check(not problems, "R-ERR-EXIT-PURE", "is_err-arm", b.name, "%s:%d" % (b.file, t.get("line", 0)),
+                      "what runs only after a failed terminal operation writes no state and cannot panic",
+                      "code that runs only when an io::Result is an error is not pure: " + "; ".join(problems[:3]), cfg)
     ctx.floor(rule, n_results, 18, cfg, "io::Result-valued call results in library code")
 
     # ---- R-IO-REPORTED (a): inside a fn that itself returns io::Result, no io::Result is swallowed ------
